@@ -31,16 +31,16 @@ func ConvertError(f *fs.File, err error) Error {
 	}
 
 	switch e := err.(type) { //nolint:errorlint // This is okay.
-	case errors.ErrorCode:
+	case errors.DocumentError:
+		return e
+
+	case errors.Err: // a bare error code, or a formatted message with its code
 		return sdkError{
 			filename: f.Name(),
 			position: 0,
 			message:  e.Error(),
 			errCode:  int(e.Code()),
 		}
-
-	case errors.DocumentError:
-		return e
 
 	case lib.ParsingError:
 		return sdkError{
@@ -63,7 +63,7 @@ func ConvertError(f *fs.File, err error) Error {
 
 func isLibraryError(err error) bool {
 	switch err.(type) { //nolint:errorlint // The wrappers are removed by the caller.
-	case errors.ErrorCode, errors.DocumentError, lib.ParsingError, lib.ValidationError:
+	case errors.Err, errors.DocumentError, lib.ParsingError, lib.ValidationError:
 		return true
 	}
 	return false
